@@ -1,0 +1,21 @@
+//go:build verif
+
+// Contracts for govc (contract-based deductive verification, see /verif/DESIGN.md).
+// Comment-only file: it adds no code and is compiled only with -tags verif.
+
+package heputils
+
+// The key under which a setting row is stored is Bernstein's hash of its name, read
+// from the last byte to the first: start at 5381, every byte multiplies by 33 and is
+// xor-ed in. A stored marker is only found again - and re-applying a retention setting
+// is only a no-op - while this stays the function the existing rows were written with
+// (an even multiplier would also throw away the low bits, so that names sharing their
+// first characters collide).
+//@ func FingerprintLabelsDJBHashPrometheus [C19]
+//@   flag checks=-assert
+//@   modifies nothing
+//@   ensures no-name-no-key: isnil(data) ==> result == 0
+//@   loop 1:
+//@     invariant i >= -1 && i < len(data)
+//@     invariant i == len(data) - 1 ==> hash == 5381
+//@     step times-33-xor-byte: hash == (prev(hash) * 33) ^ int(data[prev(i)]) && i == prev(i) - 1
